@@ -7,6 +7,8 @@ requests
   new start stop n collect k0 fuel dtbits     (population = ids 0..k0-1)
   run                          whole run from the initial population
   step r s                     one externally driven step on the current state
+  runc -|r:s;r:s…              whole run in which a callback of the listed steps clears scheduler.running
+  rerun -|r:s;…                `run` again on the current population with the current value of the flag
 replies: events `K/r/s/timebits[/a|ids]` joined by `;`, then `|progress=..|skipped=..|crashed=..|stuck=..|keys=..|pop=..|next=..`
 -/
 open Bptk.C12
@@ -69,6 +71,7 @@ structure D where
   dt : Float
   k0 : Nat
   st : St
+  running : Bool := true
 
 def ids (l : List Nat) : String := ".".intercalate (l.map toString)
 
@@ -91,7 +94,12 @@ def status (d : D) (st : St) (evs : List Ev) : String :=
   ";".intercalate (evs.map (showEv d)) ++
   s!"|progress={st.progress.num}/{st.progress.den}|skipped={if skipped st then 1 else 0}" ++
   s!"|crashed={if st.crashed then 1 else 0}|stuck={if st.stuck then 1 else 0}" ++
-  s!"|keys={",".intercalate keys}|pop={ids st.pop.agents}|next={st.pop.next}"
+  s!"|keys={",".intercalate keys}|pop={ids st.pop.agents}|next={st.pop.next}|running={if d.running then 1 else 0}"
+
+def parsePositions (s : String) : Option (List (Int × Nat)) :=
+  if s == "-" then some [] else (s.splitOn ";").mapM fun x => match x.splitOn ":" with
+    | [r, st] => do some ((← parseInt r), (← st.toNat?))
+    | _ => none
 
 def pop0 (k : Nat) : Pop := { agents := List.range k, next := k }
 
@@ -107,11 +115,23 @@ def stepLine (d : D) (line : String) : D × String :=
     | some a, some b, some n, some col, some k0, some fuel, some dtb =>
       if col > 1 then (d, "bad-op") else
       ({ d with sp := { start := a, stop := b, n := n, collectOn := col == 1, fuel := fuel }
-                dt := Float.ofBits dtb, k0 := k0, st := St.init (pop0 k0) }, "ok")
+                dt := Float.ofBits dtb, k0 := k0, st := St.init (pop0 k0), running := true }, "ok")
     | _, _, _, _, _, _, _ => (d, "bad-op")
   | ["run"] =>
     let st := run d.c (mkProg d.es) d.sp (pop0 d.k0)
     ({ d with st := st }, status d st st.log)
+  | ["runc", ps] => match parsePositions ps with
+    | some ps =>
+      let x := runC d.c (mkProg d.es) d.sp (fun r s => ps.contains (r, s)) (pop0 d.k0) true
+      let d' := { d with st := x.1, running := x.2 }
+      (d', status d' x.1 x.1.log)
+    | none => (d, "bad-op")
+  | ["rerun", ps] => match parsePositions ps with
+    | some ps =>
+      let x := runC d.c (mkProg d.es) d.sp (fun r s => ps.contains (r, s)) d.st.pop d.running
+      let d' := { d with st := x.1, running := x.2 }
+      (d', status d' x.1 x.1.log)
+    | none => (d, "bad-op")
   | ["step", r, s] => match parseInt r, s.toNat? with
     | some r, some s =>
       let st := runStep d.c (mkProg d.es) d.sp d.st r s
